@@ -169,8 +169,18 @@ func (u *seqUnit) snippet1(args []seqArg, kind, msg string) string {
 		what = "the process dies with a fatal runtime error: " + msg
 	}
 
+	after := strings.HasPrefix(msg, "after the call returned")
+	if after {
+		// aftermath oracle: the enumerated call returns, a later ordinary call does not
+		what = kind + " " + msg
+	}
+
 	body = append(body, "// observed on the checked tree: "+what)
 	body = append(body, call...)
+
+	if after {
+		body = append(body, u.followUpGo()...)
+	}
 
 	tag := ""
 	if u.T.d.win {
